@@ -120,7 +120,7 @@ def edge_insertions(d: dict) -> bool:
 
 
 def make_design(rng, i: int) -> dict:
-    focus = {'p_bg': 0.0, 'p_custom': 0.6, 'p_pam': 0.8, 'p_gtf': 0.95, 'p_table': 0.15, 'n_exons': rng.choice([1, 2, 3, 3]),
+    focus = {'p_bg': 0.0, 'p_custom': 0.6, 'p_pam': 0.8, 'p_gtf': 0.95, 'p_table': 0.3, 'n_exons': rng.choice([1, 2, 3, 3]),
              'cds_mut': list(FREE), 'non_cds_mut': ['snv', '1del'], 'allow_short_cds': True, 'p_no_op': 0.6, 'p_revcomp': 1.0,
              'custom_kinds': ['snv', 'snv', 'mnv', 'ins', 'del', 'delins_u'], 'p_lower': 0.0, 'n_pam': [1, 2, 3], 'p_softmask': 0.0,
              'exon_lens': rng.choice([[4, 5, 6, 7, 9, 12, 17, 21, 30, 31, 32, 45], [5, 7, 8, 10, 11], [1, 1, 2, 2, 3, 5, 8]])}
@@ -165,6 +165,15 @@ def make_design(rng, i: int) -> dict:
                             continue
                     keep.append(rec)
                 f['records'] = keep
+        if d.get('codon_table') and rng.random() < 0.6:
+            # tied ranks: two codons of some amino acids share the top rank (the first in file order wins - on either strand)
+            by = {}
+            for row in d['codon_table']:
+                by.setdefault(row[1], []).append(row)
+            for aa, rows in by.items():
+                if len(rows) >= 2 and rng.random() < 0.5:
+                    a, b = rng.sample(rows, 2)
+                    a[3] = b[3] = 'RANK1'
         if not edge_insertions(d):
             return d
     return d
